@@ -397,6 +397,8 @@ func replay(t *testing.T, e Engine, j *Job, res *Result) {
 			return
 		}
 		if len(o.Probes) == 0 || o.Probes["coin_steps"] == 0 {
+			res.Notes = append(res.Notes, "not reproduced; trace of the replayed case:")
+			res.Notes = append(res.Notes, clip(o.Trace, 400)...)
 			break
 		}
 	}
